@@ -74,6 +74,13 @@ def build_harness():
             return out, key
         t0 = time.time()
         hdir = os.path.join(VERIF, "harness")
+        if REPO != "/repo":
+            # scratch copy of the repository (mutation runs): build a copy of the harness whose replace points there
+            hdir = os.path.join(CACHE, "build", key, "harness-src")
+            shutil.rmtree(hdir, ignore_errors=True)
+            shutil.copytree(os.path.join(VERIF, "harness"), hdir)
+            gm = open(os.path.join(hdir, "go.mod")).read().replace("=> /repo", "=> " + REPO)
+            open(os.path.join(hdir, "go.mod"), "w").write(gm)
         shutil.copy(os.path.join(REPO, "go.sum"), os.path.join(hdir, "go.sum"))
         os.makedirs(os.path.dirname(out), exist_ok=True)
         r = subprocess.run(["go", "build", "-tags", "verif", "-o", out, "./cmd/saoharness"], cwd=hdir, env=GOENV,
